@@ -115,6 +115,8 @@ func c09PairScenarios() []c09Scenario {
 		{Pre: aged, Actors: []c09Actor{{Kind: "sweep"}, {Kind: "ingest", Secret: 5, Covert: "ok1"}}},
 		{Pre: aged, Actors: []c09Actor{{Kind: "sweep"}, {Kind: "lookup", Secret: 7}, {Kind: "ingest", Secret: 7, Covert: "ok1"}}},
 		{Actors: []c09Actor{{Kind: "ingest", Secret: 1, Covert: "ok1"}, {Kind: "ingest", Secret: 1, Covert: "ok1"}}},
+		{Actors: []c09Actor{{Kind: "ingest", Secret: 1, Covert: "ok1", V6: true}, {Kind: "ingest", Secret: 1, Covert: "ok1", V6: true}, {Kind: "ingest", Secret: 1, Covert: "ok1", V6: true}}},
+		{Actors: []c09Actor{{Kind: "ingest", Secret: 1, Covert: "ok1", Pre: true}, {Kind: "ingest", Secret: 1, Covert: "ok1", Pre: true}}},
 		{Actors: []c09Actor{{Kind: "ingest", Secret: 1, Covert: "bad"}, {Kind: "ingest", Secret: 1, Covert: "ok1"}}},
 		{Actors: []c09Actor{{Kind: "ingest", Secret: 1, Covert: "ok1"}, {Kind: "ingest", Secret: 1, Covert: "ok2"}, {Kind: "ingest", Secret: 1, Covert: "malformed"}}},
 		{Actors: []c09Actor{{Kind: "ingest", Secret: 1, Covert: "ok1"}, {Kind: "lookup", Secret: 1}}},
